@@ -33,6 +33,7 @@ W1 = "22f190"
 W2 = "3e00"
 PROGRAMS = {
     "sr": [("sleep", 0.3), ("read", 1.0)],
+    "bw": [("bgread", 3.0), ("write", W1), ("join", 0)],
     "wr": [("write", W1), ("read", 1.0)],
     "r": [("read", 1.0)],
     "ww": [("write", W1), ("write", W2)],
@@ -130,6 +131,10 @@ def items(tier: str, seed: int) -> list[Any]:
     for pre in ([("ack1", 1), ("data:62f190aa", 1)], [("data:62f190aa", 1), ("ack1", 1)], [("ack1", 1)]):
         for seg in ("one", "frames"):
             add(pre + [("eof", 1)], "wr", seg, b=1)
+    # a second task of the client is blocked in read() while the first one writes
+    for fr in ([("ack1", 1), ("data:62f190aa", 1)], [("ack1", 1), ("data:62f190aa", 1, 0.05)], [("ack1", 1)], [("fdataS:aa", 1), ("ack1", 1), ("data:62f190aa", 1, 0.05)]):
+        for seg in ("one", "frames"):
+            add(fr, "bw", seg, b=1, drain_n=0)
     # four-step histories on one connection (write, read, write, read) with frames that are skipped during the first ack wait
     for x in ("data:62f190aa", "fdataS:aa", "data:7f2278"):
         for y in (None, "data:62f190aa", "fdataS:aa"):
